@@ -79,7 +79,7 @@ def ref_parse1(s):
 
 class C16(F.PropCheck):
     pid = 'C16'; gen_groups = ['MqttConsts']; prop_file = 'Properties_C16'
-    IN = {'START': 0, 'SEG': 1, 'TICK': 2, 'SUB': 3, 'PING': 4, 'PUB': 5}
+    IN = {'START': 0, 'SEG': 1, 'TICK': 2, 'SUB': 3, 'PING': 4, 'PUB': 5, 'RELINK': 6}
     OUT = {0: 'BOOT', 1: 'MSG', 2: 'SENT', 3: 'QUEUED', 4: 'DROPPED', 5: 'ERR', 6: 'RECONNECT', 7: 'FAULT'}
     quick_cases = 3000; thorough_cases = 120000
     trusted_extra = ['C16 driver harness/drv/c16.c + wrapper harness/wrap/c16_mqtt_wrap.c (supla_esp_mqtt.c included unchanged) + board '
@@ -90,7 +90,7 @@ class C16(F.PropCheck):
                      'sizeof(struct mqtt_queued_message) is the host value (40; 32 on the target): the send queue fills later on the device']
     assumptions = ['one broker session up to its first protocol error; device-originated PUBLISH packets with QoS > 0 are outside the model',
                    'segmentation theorems: the send queue is never compacted while receiving (d_tight = false)']
-    rule = ('broker streams of 1-12 packets (CONNACK, PUBLISH QoS 0/1/2 with topic/payload lengths 0..buffer size, QoS 2 retransmissions at aimed points, SUBACK/PINGRESP/PUBACK for '
+    rule = ('broker streams of 1-12 packets (CONNACK, PUBLISH QoS 0/1/2 with topic/payload lengths 0..buffer size, QoS 2 retransmissions at aimed points, every ack type x remaining length 0..4 x matching/non-matching id x followed by nothing/stale byte/PUBLISH, multi-session histories (RELINK after partial packet / malformed packet / clean), SUBACK/PINGRESP/PUBACK for '
             'outstanding and unknown requests (device SUBSCRIBE/PINGREQ/QoS 1 PUBLISH), PUBREL, unknown acknowledgements; single-field corruptions of type, flags, remaining length, '
             'topic length; random bytes) x segmentations (whole, 1-byte, 10+rest, random cuts, coalesced up to 1460 bytes) x TICK interleaving; '
             'non-trivial = at least one MSG or ERR observed; distinct by sha256 of the event text')
@@ -212,6 +212,16 @@ class C16(F.PropCheck):
                 if rng.random() < 0.3: flush()
             flush()
             if rng.random() < 0.5: evs.append(('TICK', [], b''))
+            if rng.random() < 0.25:
+                # the session ends (error before, partial packet pending, or simply here), reconnect, a second valid session
+                z = rng.random()
+                if z < 0.4: evs.append(('SEG', [], publish(b'cut/off', b'x' * 40, qos=1, pid=77)[:rng.randrange(1, 30)])); tags.append('relink:partial-pending')
+                elif z < 0.6: evs.append(('SEG', [], bytes([0x00, 0x02, 1, 2, 0x30]))); tags.append('relink:after-malformed')
+                else: tags.append('relink')
+                evs.append(('RELINK', [connect_size()], b''))
+                s2 = connack() + publish(b't/after', b'reconnect', qos=rng.choice([0, 1]), pid=4242)
+                for p2 in self.segment(rng, s2, []): evs.append(('SEG', [], p2))
+                evs.append(('TICK', [], b''))
             cases.append(F.Case('%s%d' % (tier[0], i), evs, sorted(set(tags))))
         cases += self.special_cases(rng, tier)
         return cases
@@ -232,6 +242,29 @@ class C16(F.PropCheck):
                     'midrel': [connack() + o, d, rel, T, nxt], 'afterrel': [connack() + o, rel, T, d]}
             for name, seq in seqs.items():
                 cases.append(F.Case('q2dup_%s_%d' % (name, j), [S] + [x if isinstance(x, tuple) else ('SEG', [], x) for x in seq] + [T], ['qos2-retransmit-aimed']))
+        # multi-session: what session 1 leaves in the buffer must not reach session 2
+        RL = ('RELINK', [cs, 0], b''); pfull = publish(b'supla/devices/x/channels/0/set/on', b'1', qos=1, pid=21)
+        good2 = [('SEG', [], connack()), ('SUB', [321, 10], b''), T, ('SEG', [], suback(321) + publish(b't/2', b'second', qos=1, pid=22)), T]
+        for name, tail in (('partial', [('SEG', [], connack() + pfull[:11])]), ('partial1', [('SEG', [], connack()), ('SEG', [], pfull[:1])]),
+                           ('malformed', [('SEG', [], connack() + bytes([0x00, 0x00]))]), ('malformed_behind', [('SEG', [], connack() + pfull + bytes([0xF0, 0x01, 0x55]))]),
+                           ('unknownack', [('SEG', [], connack() + pubxxx(4, 999))]), ('clean', [('SEG', [], connack() + pfull)]),
+                           ('noconnack', [('SEG', [], pfull[:20])])):
+            cases.append(F.Case('relink_%s' % name, [S] + tail + [RL] + good2, ['multi-session']))
+            cases.append(F.Case('relink2_%s' % name, [S] + tail + [RL] + tail + [RL] + good2, ['multi-session']))
+        # every acknowledgement type with every remaining length 0..4, matching / non-matching id, alone / + stale byte / + PUBLISH
+        behind = publish(b'b/1', b'behind', qos=0)
+        for t in (2, 4, 5, 6, 7, 9, 11, 13):
+            for rl in range(0, 5):
+                for match in (0, 1):
+                    for follow in (b'', b'\x80', b'\x00', behind):
+                        pre = [('SEG', [], connack())] if t != 2 else []
+                        pid_ = 600 + t
+                        if t == 9 and match: pre.append(('SUB', [pid_, 10], b''))
+                        if t == 4 and match: pre += [('PUB', [1, pid_, 10], b''), T]
+                        if t == 13 and match: pre.append(('PING', [], b''))
+                        if t == 6 and match: pre += [('SEG', [], publish(b'q/2', b'x', qos=2, pid=pid_)), T]
+                        body = (struct.pack('>H', pid_ if match else pid_ + 1) + b'\x00\x00\x00')[:rl] if t != 2 else b'\x00\x00\x00\x00\x00'[:rl]
+                        cases.append(F.Case('acklen_t%d_rl%d_m%d_f%d' % (t, rl, match, len(follow)), [S] + pre + [('SEG', [], pkt(t, REQ_FLAGS[t], body) + follow), T], ['ack-lengths']))
         # exhaustive two-cut segmentations of a short stream
         s = connack() + publish(b't/1', b'on', qos=1, pid=7) + publish(b'ab', b'', qos=2, pid=9) + pubxxx(6, 9)
         lim = len(s) if tier == 'thorough' else 12
@@ -242,11 +275,29 @@ class C16(F.PropCheck):
 
     # ---------------- monitor (implementation trace vs. the property; no model involved)
     def monitor(self, case, status, outs):
-        c = consts(); RB = c['RECVBUF']
         if status != 'ok':
             return ['implementation crashed (%s) while receiving: memory-safety clause' % status]
-        v = []
         if not case.evs or case.evs[0][0] != 'START': return []
+        # sessions: START ... [RELINK ...]*; outputs are cut at the BOOT lines
+        sess = []; cur = None
+        for e in case.evs:
+            if e[0] in ('START', 'RELINK'):
+                if e[0] == 'START' and cur is not None: continue
+                cur = [('START', e[1], e[2])]; sess.append(cur)
+            elif cur is not None: cur.append(e)
+        souts = []; co = None
+        for o in outs:
+            if o[0] == 'BOOT': co = [o]; souts.append(co)
+            elif co is not None: co.append(o)
+        for i, evs in enumerate(sess):
+            if i >= len(souts): break
+            v = self.monitor_session(F.Case(case.id, evs), souts[i])
+            if v: return [('session %d after a reconnect: ' % (i + 1) if i else '') + x for x in v]
+        return []
+
+    def monitor_session(self, case, outs):
+        c = consts(); RB = c['RECVBUF']
+        v = []
         # --- observed
         msgs = []; acks = []; err = None; reconnect = False
         for (k, ints, data) in outs:
@@ -316,6 +367,8 @@ class C16(F.PropCheck):
                     else: end = ('malformed', 'acknowledgement type %d of something never sent (id %d)' % (ct, info['pid']), True)
         sendfull = (err == c['E_SEND_BUFFER_IS_FULL'])
         legit = bool(end)
+        if end and end[0] == 'malformed' and end[2] and len(msgs) > len(exp) and msgs[:len(exp)] == exp and err != c['E_SEND_BUFFER_IS_FULL']:
+            return ['a packet behind a malformed packet (%s) was still passed to the handler (topic %d bytes)' % (end[1], len(msgs[len(exp)][0]))]
         if legit: msgs = msgs[:len(exp)]; acks = acks[:len(exp_acks)]   # what happens after an ambiguous point is left to the model comparison
         # --- compare
         # a second PUBREC for a retransmission is allowed (MQTT-4.3.3), not required
@@ -337,6 +390,9 @@ class C16(F.PropCheck):
         for i, a in enumerate(acks):
             if i >= len(exp_acks) or a != exp_acks[i]:
                 v.append('acknowledgement #%d (type %d id %d) does not match the stream (expected %s)' % (i, a[0], a[1], exp_acks[i] if i < len(exp_acks) else 'none')); return v
+        if sendfull and len(msgs) < len(exp) and msgs == exp[:len(msgs)]:
+            k = len(msgs)
+            v.append('well-formed PUBLISH #%d of the stream (qos %d) was dropped without callback and acknowledgement: the send queue could not take its acknowledgement (SEND_BUFFER_IS_FULL after %d queued acknowledgements), session reset' % (k, exp[k][2], len(exp_acks))); return v
         if not sendfull and len(msgs) < len(exp):
             # every well-formed PUBLISH before the end point must have been delivered (all its bytes were handed over)
             v.append('well-formed PUBLISH #%d of the stream (topic %d bytes, payload %d bytes, qos %d) was not passed to the handler%s' %
@@ -348,7 +404,10 @@ class C16(F.PropCheck):
             elif not reconnect: v.append('protocol error %d after a malformed packet (%s) was not followed by a reconnect' % (err, end[1]))
         return v
 
-    def finding_key(self, case, what): return None
+    def finding_key(self, case, what):
+        # class: a QoS 1/2 PUBLISH arrives while the send queue has no room for its acknowledgement
+        if 'send queue could not take its acknowledgement' in what: return 'send-queue-full'
+        return None
     def nontrivial(self, case, io): return any(o[0] in ('MSG', 'ERR') for o in io[1])
 
 CHECK = C16()
